@@ -32,6 +32,9 @@ def build_corpus(tier, rng):
     for n in range(0, 9):
         for rep in range(12 if thorough else 3):
             ids = rng.sample(IDS, n)
+            # (two variants whose names snake-case to one method name — `r#type` and `Type_` — are outside the derive's domain: keep the first)
+            seen_keys = set()
+            ids = [x for x in ids if not ((lambda k_: k_ in seen_keys or seen_keys.add(k_))(x.replace("r#", "").replace("_", "").lower()))]
             vs = []
             for i, ident in enumerate(ids):
                 r = (i + rep + n) % 5
